@@ -140,8 +140,14 @@ def fortran_file(spec):
 
 
 def round_sig(x, d):
+    """x to d significant digits, kept within two-digit exponents (three-digit ones are written without the
+    letter E by Fortran: C16's subject, and need the Fortran read functions)"""
     if x is None or x == 0: return x
-    return float('%.*e' % (d - 1, x))
+    y = float('%.*e' % (d - 1, x))
+    if abs(y) >= 1e98 or abs(y) < 1e-98:
+        mant = ('%.*e' % (d - 1, abs(y))).split('e')[0]
+        y = (1 if y > 0 else -1) * float(mant)
+    return y
 
 
 def fortranise(spec):
